@@ -35,6 +35,8 @@ BAD_VALUES = {"object": {"$obj": "object"}, "set": {"$obj": "set"}, "complex": {
 
 def bad_item(kindname):
     """Return (encoded container fragment holding the invalid item, is_key)."""
+    if kindname == "foreign_dotted":
+        return {"$handle": 1 if hash(kindname) % 2 else 2} if False else {"$handle": 2}
     if kindname in BAD_KEYS:
         return {"$keydict": [[BAD_KEYS[kindname], 1], ["ok", 2]]}
     if kindname == "dot":
@@ -91,12 +93,19 @@ class W(World):
         args = M.dec(st["args"], None)
         before_mem = self.mem_plain(ob)
         before_obs = self.observe(r)
+        handle_nodes = [x.node if x is not None else None for x in self.handles]
+        args = M.dec(st["args"], handle_nodes)
         res = self.lib_op(h.node, st["name"], args, st.get("attr", False))
         self.stat("fault_rejected_input")
         self.probe("rejected_input")
         what = f"{st['name']}{jsonable(st['args'])} on {type(h.node).__name__} at {h.path}"
         if not isinstance(res, M.Raised):
             raise Violation("accepted_forbidden", f"{what} was accepted (returned {M.result_plain(st['name'], res, self.SC)!r})")
+        # the SAME argument object offered again must be rejected again (a validator must not remember it)
+        res2 = self.lib_op(h.node, st["name"], args, st.get("attr", False))
+        if not isinstance(res2, M.Raised):
+            raise Violation("accepted_forbidden", f"{what}: rejected the first time, ACCEPTED when the same object was offered again")
+        res = res2
         if not isinstance(res.exc, (TypeError, ValueError)):
             raise Violation("wrong_exception", f"{what} raised {res.cls.__name__}: {res.exc}")
         mem = self.mem_plain(ob)
@@ -121,7 +130,7 @@ class W(World):
     def st_badctor(self, st):
         r = self.res[st["rid"]]
         fam = self.ns.families[r.family]
-        data = M.dec(st["data"], None)
+        data = M.dec(st["data"], [x.node if x is not None else None for x in self.handles])
         res = self.call(lambda: self.construct(r, False, data))
         self.probe("rejected_input")
         self.stat("fault_rejected_input")
@@ -151,10 +160,17 @@ def setup(w, rg):
         init.extend([{"m": {}, "q": [{}]}, [{}, []]])
     yield {"t": "new_res", "family": cfg["family"], "kind": cfg["kind"], "init": init}
     yield {"t": "new_obj", "rid": 0, "wc": cfg["wc"]}
+    if lib.load().families[cfg["family"]]["attr"]:
+        # a synced collection of the PLAIN JSON family that legitimately holds dotted keys: storing it (or a child of
+        # it) into an attribute-access collection must be rejected like the equivalent plain dict
+        yield {"t": "new_res", "family": "JSON", "kind": "dict", "init": {"dotted.key": 1, "inner": {"x.y": 2, "lst": [{"p.q": 3}]}, "fine": {"ok": 4}}}
+        yield {"t": "new_obj", "rid": 1, "wc": False}
+        yield {"t": "op", "hid": 1, "name": "getitem", "args": ["inner"], "keep": True, "hid_new": 2}
+        w.foreign = [1, 2]
 
 
 def gen_prefix_step(w, rg):
-    hs = G.attached_handles(w)
+    hs = [x for x in G.attached_handles(w) if w.objs[x.oid].rid == 0]
     h = G.pick(rg, hs)
     if rg.random() < 0.4:
         st = G.gen_navigate_step(rg, w, h)
@@ -174,8 +190,13 @@ def gen_bad(w, rg):
         kinds += list(BAD_VALUES)
     if fam["attr"]:
         kinds += ["dot", "dot"]
+    hs = [x for x in hs if w.objs[x.oid].rid == 0]
+    nested = [x for x in hs if x.path]
+    h = G.pick(rg, nested) if nested and rg.random() < 0.65 else G.pick(rg, hs)
     kn = G.pick(rg, kinds)
     depth = rg.choice([0, 0, 1, 2, 3])
+    if getattr(w, "foreign", None) and rg.random() < 0.2:
+        kn = "foreign_dotted"
     r = w.res[0]
     c = get_path(r.model, h.path)
     if rg.random() < 0.08:
